@@ -392,6 +392,53 @@ def r_operand_alias_mutation(ck: Checker, rule: str = "R-INPLACE", modnames: tup
         ck.holds(rule, (modnames[0], "*"), None, "no function binds a local to a container inside one of its operands")
 
 
+def r_field_value_alias_edit(ck: Checker, rule: str = "R-INPLACE", modnames: tuple[str, ...] = ("pyoak.visitor", "pyoak.node", "pyoak.tree")) -> None:
+    """A local bound to the value of a node's field (`x = getattr(node, name)` / `x = node.attr`, node a parameter or loop element) *is* the
+    container the node holds.  Editing it in place (subscript store / del, append, insert, pop, sort ...) edits the input node, unless the
+    local is unconditionally re-bound to a copy in the same block before any edit (positive pattern: the re-binding to a copy is missing
+    or conditional)."""
+    EDITS = ("append", "extend", "insert", "remove", "pop", "clear", "sort", "reverse", "update", "add", "discard", "setdefault")
+    from .state_rules import _raw_functions
+    n = 0
+    for modname in modnames:
+        m_ = ck.repo.mod(modname)
+        for q, fn, _cls in _raw_functions(m_):
+            params = {a.arg for a in fn.args.args + fn.args.kwonlyargs} - {"cls"}
+            nodes = set(params)
+            for lp in ast.walk(fn):
+                if isinstance(lp, (ast.For, ast.comprehension)):
+                    nodes |= {t.id for t in ast.walk(lp.target) if isinstance(t, ast.Name)}
+
+            def field_value(e: ast.expr) -> bool:
+                if isinstance(e, ast.Call) and dotted(e.func) == "getattr" and len(e.args) >= 2 and isinstance(e.args[0], ast.Name) and e.args[0].id in nodes:
+                    return True
+                return False
+            blocks = [b for x in ast.walk(fn) for b in ([getattr(x, f_) for f_ in ("body", "orelse", "finalbody") if isinstance(getattr(x, f_, None), list)])]
+            for blk in blocks:
+                for i, st in enumerate(blk):
+                    if not (isinstance(st, ast.Assign) and len(st.targets) == 1 and isinstance(st.targets[0], ast.Name) and field_value(st.value)):
+                        continue
+                    name = st.targets[0].id
+                    n += 1
+                    # unconditional re-binding to something else in the rest of this block, before any edit
+                    safe_from = None
+                    for j, later in enumerate(blk[i + 1:], i + 1):
+                        if isinstance(later, ast.Assign) and any(isinstance(t, ast.Name) and t.id == name for t in later.targets):
+                            safe_from = later.lineno
+                            break
+                    edits = [x for x in ast.walk(fn) if ((isinstance(x, ast.Subscript) and isinstance(x.ctx, (ast.Store, ast.Del)) and isinstance(x.value, ast.Name) and x.value.id == name)
+                                                        or (isinstance(x, ast.Call) and isinstance(x.func, ast.Attribute) and x.func.attr in EDITS and isinstance(x.func.value, ast.Name) and x.func.value.id == name))
+                             and x.lineno > st.lineno and (safe_from is None or x.lineno < safe_from)]
+                    what = f"{q}: a container read from a node's field is copied before it is edited"
+                    if edits:
+                        ck.violation(rule, (m_.rel, q), edits[0], what, positive=True,
+                                     construct=f"{q}: `{norm(st)[:50]}` is the container the node holds and {norm(edits[0])[:40]} edits it in place (no unconditional copy in between) — the input node's field changes")
+                    else:
+                        ck.holds(rule, (m_.rel, q), st, what)
+    if n == 0:
+        ck.holds(rule, (modnames[0], "*"), None, "no local is bound to a container read from a node's field and then edited in place")
+
+
 def r_payload_inplace(ck: Checker) -> None:
     """The mapping handed to __post_serialize__ is new, but what sits inside it may be the node's own values (mashumaro passes the
     values of untyped fields through).  A function that edits its argument in place *and* descends into the argument's elements edits
@@ -457,6 +504,7 @@ def run(ck: Checker) -> None:
     from .c03 import r_reg_pair, r_reg_who
     ck.guard("R-REG-OWN", lambda: r_reg_who(ck))  # construction does not change the registry membership of nodes that existed before
     ck.guard("R-INPLACE", lambda: r_operand_alias_mutation(ck))
+    ck.guard("R-INPLACE", lambda: r_field_value_alias_edit(ck))
     ck.guard("R-REG-PAIR", lambda: r_reg_pair(ck))  # a failed replace leaves the receiver registered
     if ck.tier == "thorough":
         ck.explanation += (" Thorough tier: mypy (the repository's own dev dependency, used as a library) infers the type of every write receiver "
